@@ -200,7 +200,7 @@ Definition run_op (c : sval) : option sval :=
             Some (match Unmarshal b with Ok _ => SL [SY "ok"] | Err => SL [SY "err"] | Panic => SL [SY "panic"] | Fuel => SL [SY "fuel"] end)
           else if String.eqb op "inbuf" then Some (SL [SY "unchanged"; sbool true])
           else None
-      | [SY n; SB b] => if String.eqb op "dec" then dec_by_name n b else None
+      | [SY n; SB b] => if String.eqb op "dec" || String.eqb op "inflated" then dec_by_name n b else None
       | [SY n; SL bs] =>
           if String.eqb op "decs" then
             let? l := omap as_B bs in
